@@ -229,4 +229,6 @@ func (h *Handle) Release() {
 }
 
 // ErrnoErr formats an errno.
-func ErrnoErr(what string, e syscall.Errno) error { return fmt.Errorf("%s: errno %d (%s)", what, int(e), e.Error()) }
+func ErrnoErr(what string, e syscall.Errno) error {
+	return fmt.Errorf("%s: errno %d (%s)", what, int(e), e.Error())
+}
